@@ -200,7 +200,7 @@ func checkC14(c *Ctx, r *Report) {
 			r.Ok("C14.R2", k, a.pos, fmt.Sprintf("%d instructions executed under the map lock; none can wait", a.n))
 		}
 	}
-	r.Floor("C14.R2", len(perFn), 12, "functions with a map-lock region")
+	r.Floor("C14.R2", len(perFn), 4, "functions with a map-lock region")
 
 	// ---- R3: pairing
 	fnsWithOps := map[*ssa.Function]bool{}
